@@ -413,10 +413,10 @@ class BpWorld(object):
                   next=str(tx_params.get('next', '')) if isinstance(tx_params, dict) else '')
 
     def recv(self, octets, note='', sec='none', plain='', nsec=0, expect_decode_error=False, via=None,
-             corrupt=False):
+             corrupt=False, encbib=False):
         ''' The CLA hands a received bundle to the agent (as _cl_recv_bundle_finish does).
         sec/plain/nsec: what the generator of the bundle knows about its security blocks. '''
-        rec = self.note_recv(octets, note=note, sec=sec, plain=plain, nsec=nsec, corrupt=corrupt)
+        rec = self.note_recv(octets, note=note, sec=sec, plain=plain, nsec=nsec, corrupt=corrupt, encbib=encbib)
         try:
             if via is not None:
                 # through the real adaptor: the CL service announces the bundle, the adaptor pops and decodes it
@@ -433,7 +433,7 @@ class BpWorld(object):
                       expected=bool(expect_decode_error or corrupt or not rec['ok']))
         self.boundary('recv')
 
-    def note_recv(self, octets, note='', sec='none', plain='', nsec=0, corrupt=False):
+    def note_recv(self, octets, note='', sec='none', plain='', nsec=0, corrupt=False, encbib=False):
         ''' Record that these octets are being handed to the agent as a received bundle. '''
         rec, bun = abstract_bundle(octets)
         rx, tx = self.route_info(rec['dest']) if rec['ok'] else ([], [])
@@ -447,7 +447,7 @@ class BpWorld(object):
                   own=bool(rec['ok'] and rec['src'] == self.node_id),
                   admin=bool(rec['ok'] and rec['dest'] == self.node_id),
                   appdest=bool(rec['ok'] and self.safe_endpoint is not None and rec['dest'] == self.safe_endpoint),
-                  sec=sec, plain=plain, nsec=nsec, idle0=len(GLib.SCHED.sources), btypes=btypes, note=note,
+                  sec=sec, plain=plain, nsec=nsec, encbib=bool(encbib), idle0=len(GLib.SCHED.sources), btypes=btypes, note=note,
                   rptroute=bool(rec['ok'] and self.routable(rec['rpt'])))
         return rec
 
